@@ -307,7 +307,8 @@ pub fn gen_case(rng: &mut Rng) -> GradCase {
         2 => {
             let c2 = (pos(rng, wf), pos(rng, hf));
             let r2 = rng.range(3., 2. * (wf + hf)) as f32;
-            let r1 = (r2 as f64 * rng.range(0.02, 0.6)) as f32;
+            // (a first circle that is a single point now and then)
+            let r1 = if rng.chance(0.12) { 0. } else { (r2 as f64 * rng.range(0.02, 0.6)) as f32 };
             let room = (r2 - r1) as f64 * 0.85;
             let ang = rng.range(0., 6.28);
             let dist = rng.range(0., room);
